@@ -281,26 +281,6 @@ Section Path.
     destruct t; simpl in Hn; try discriminate; simpl; auto.
   Qed.
 
-  (* ... and a non-None argument never arrives as None *)
-  Lemma one_way_none_only_from_none : forall f t v, one_way ser deser f t v = Accept VNone -> v = VNone \/ exists x, deserialize_value deser t x = Accept VNone /\ is_none x = false.
-  Proof.
-    intros [a nullable] t v H. unfold one_way in H.
-    destruct (is_none v && negb nullable) eqn:E1; try discriminate.
-    destruct (arrow_rt a (convert_for_arrow ser v)) as [x| |] eqn:E; simpl in H; try discriminate.
-    destruct (is_none x) eqn:Ex.
-    - destruct x; try discriminate. clear Ex.
-      destruct v; auto; simpl in E; exfalso.
-      all: try (destruct a; simpl in E; try discriminate;
-                repeat match type of E with
-                | context [if ?c then _ else _] => destruct c
-                | context [match ?c with _ => _ end] => destruct c
-                end; try discriminate; fail).
-      all: try (destruct a; simpl in E; unfold list_outcome in E;
-                repeat match type of E with
-                | context [match ?c with _ => _ end] => destruct c
-                end; discriminate).
-    - right. exists x. auto.
-  Qed.
 End Path.
 
 (* ------------------------------------------------------------------ integers and floats, stated on the converter *)
